@@ -63,11 +63,48 @@ def desc(via, lon, lat, conn, **kw):
     return d
 
 
+class OpFailed(Exception):
+    pass
+
+
+def apply_ops(ux, g, ops):
+    """put a grid into another *backing state* through public calls only:
+    ["chunk", {n_node/n_edge/n_face: int | "auto" | -1}]  Grid.chunk (in place, dask arrays)
+    ["copy"]                                              Grid.copy()
+    ["isel", [faces]] / ["isel_all"]                      Grid.isel(n_face=…)
+    ["touch", [attributes]]                               materialise derived tables
+    A call that raises is not this property's business: the pair is dropped and counted."""
+    for op in ops or ():
+        try:
+            if op[0] == "chunk":
+                g.chunk(**op[1])
+            elif op[0] == "copy":
+                g = g.copy()
+            elif op[0] == "isel":
+                g = g.isel(n_face=list(op[1]))
+            elif op[0] == "isel_all":
+                g = g.isel(n_face=list(range(int(g.n_face))))
+            elif op[0] == "touch":
+                for n in op[1]:
+                    getattr(g, n)
+            else:
+                raise ValueError("unknown op " + str(op[0]))
+        except Exception as e:  # noqa: BLE001
+            raise OpFailed(f"{op[0]}:{type(e).__name__}") from e
+    return g
+
+
 def build(ux, d):
+    return apply_ops(ux, build0(ux, d), d.get("ops"))
+
+
+def build0(ux, d):
     import xarray as xr
 
     via = d["via"]
     if via == "file":
+        if d.get("open_chunks"):
+            return ux.open_grid(meshfiles() / d["path"], chunks={})
         return ux.open_grid(meshfiles() / d["path"])
     dt = np.dtype(d.get("dtype", "float64"))
     lon = np.array([fl(b) for b in d["lon"]], dtype=np.float64).astype(dt)
@@ -123,7 +160,9 @@ def observe(g):
     else:
         cv = None
     dims_ok = tuple(lo.dims) == ("n_node",) and tuple(la.dims) == ("n_node",) and tuple(co.dims) == ("n_face", "n_max_face_nodes")
+    backing = [backing_of(x) for x in (lo, la, co)]
     return dict(
+        backing=backing,
         spec=g.source_grid_spec,
         lon=[bits(x) for x in lon],
         lat=[bits(x) for x in lat],
@@ -136,6 +175,28 @@ def observe(g):
     )
 
 
+def backing_of(da):
+    """numpy, or dask with its graph name and chunk sizes along axis 0 (public DataArray.data / .chunks)"""
+    data = da.data
+    if hasattr(data, "dask") and hasattr(data, "name"):
+        ch = da.chunks[0] if da.chunks else ()
+        return dict(kind="dask", name=str(data.name), chunks=[int(c) for c in ch])
+    return dict(kind="numpy")
+
+
+def enc_backing(b):
+    if b["kind"] == "numpy":
+        return "0"
+    import hashlib
+
+    h = int(hashlib.sha1(b["name"].encode()).hexdigest()[:15], 16)
+    return "1 " + str(h) + " " + enc_ints(b["chunks"])
+
+
+def enc_bgrid(o):
+    return enc_grid(o) + " " + " ".join(enc_backing(b) for b in o["backing"])
+
+
 def enc_grid(o):
     spec = [ord(c) for c in repr(o["spec"])]
     return " ".join([enc_ints(spec), enc_ints(o["lon"]), enc_ints(o["lat"]), str(o["shape"][0]), str(o["shape"][1]),
@@ -146,7 +207,8 @@ def small(o):
     """observation abridged for replays / samples"""
     k = 12
     return dict(spec=o["spec"], n_node=len(o["lon"]), shape=o["shape"], lon=[fl(b) for b in o["lon"][:k]],
-                lat=[fl(b) for b in o["lat"][:k]], conn=o["conn"][: 2 * k], coords=o["coords"])
+                lat=[fl(b) for b in o["lat"][:k]], conn=o["conn"][: 2 * k], coords=o["coords"],
+                backing=o.get("backing"))
 
 
 def cmp(op, x, y):
@@ -203,10 +265,15 @@ def judge_objs(ctx, kind, a, oa, da, b, ob, db, extra=None):
                  inp, dict(outputs=outs, errors=errs), None, ["total"])
         return None
     e1, n1, e2, n2 = outs
-    ans = d.ask("C20.pair", enc_grid(oa), enc_grid(ob), b01(e1), b01(n1), b01(e2), b01(n2))
-    ds, v1, v2, v3, m = ans.split(";")
+    ans = d.ask("C20.bpair", enc_bgrid(oa), enc_bgrid(ob), b01(e1), b01(n1), b01(e2), b01(n2))
+    ds, v1, v2, v3, m, bm, bk = ans.split(";")
     diff, cs = ds.split()
     meq, mne, masis = [x == "1" for x in m.split()]
+    beq_ab, beq_ba, faith_ab, faith_ba = [x == "1" for x in bm.split()]
+    faithful = faith_ab and faith_ba
+    ctx.hit("backing:" + bk)
+    if not faithful:
+        ctx.hit("dask-names-not-faithful")
     single = diff in ("lon", "lat", "conn", "n_face", "width", "spec", "none", "n_node")
     ctx.case((kind, oa["spec"], ob["spec"], oa["lon"][:64], oa["lat"][:64], ob["lon"][:64], ob["lat"][:64], oa["conn"][:128],
               ob["conn"][:128], oa["shape"], ob["shape"], oa["coordVars"], ob["coordVars"]),
@@ -226,7 +293,9 @@ def judge_objs(ctx, kind, a, oa, da, b, ob, db, extra=None):
     if has_nan(oa) or has_nan(ob):
         ctx.hit("with-NaN")
     impl = dict(eq_ab=e1, ne_ab=n1, eq_ba=e2, ne_ba=n2, a=small(oa), b=small(ob))
-    model = dict(eq=meq, ne=mne, asis_eq=masis, differs=diff)
+    model = dict(eq=meq, ne=mne, asis_eq=masis, differs=diff, backing=bk, eq_with_lazy_shortcut=[beq_ab, beq_ba],
+                 dask_names_faithful=faithful)
+    bsuf = "" if bk == "numpy+numpy" or cs == "coords-differ" else "/backing=" + bk
     failed = False
     for v, (e, n), tag in ((v1, (e1, n1), "a==b"), (v2, (e2, n2), "b==a")):
         if v == "ok":
@@ -238,16 +307,24 @@ def judge_objs(ctx, kind, a, oa, da, b, ob, db, extra=None):
                 ctx.fail(f"C20/ne-not-negation/eq={e}/ne={n}", f"`!=` is not the negation of `==` ({tag}: == gives {e}, != gives {n})",
                          inp, impl, model, [c])
             else:
-                sig = f"C20/eq={e}/differs={diff}" + ("/coords-structure" if cs == "coords-differ" else "")
-                what = (f"grids differing in [{diff}] compare equal" if e else
+                sig = f"C20/eq={e}/differs={diff}" + ("/coords-structure" if cs == "coords-differ" else "") + bsuf
+                cl = [c] + ([] if faithful else ["dask_names_faithful"])
+                what = (f"grids differing in [{diff}] compare equal" + ("" if faithful else
+                        " — their dask-backed variables carry the same graph name although the values differ, so xarray's lazy "
+                        "shortcut answers without comparing values") if e else
                         f"grids of the same format with identical node_lon, node_lat and face_node_connectivity compare unequal"
                         + (" (node coordinates stored as data variables in one, as xarray coordinates in the other)" if cs == "coords-differ" else ""))
-                ctx.fail(sig, what + f" ({tag}, kind={kind})", inp, impl, model, [c])
+                ctx.fail(sig, what + f" ({tag}, kind={kind})", inp, impl, model, cl)
     if v3 != "ok":
         failed = True
         ctx.fail(f"C20/asymmetric/differs={diff}", f"a == b is {e1} but b == a is {e2}", inp, impl, model, ["eq_symm"])
     if not failed and ok_struct and oa["coordVars"] is not None and ob["coordVars"] is not None and (e1, n1) != (meq, mne):
         ctx.mismatch("C20/model-vs-impl", inp, impl, model)
+    if not failed and not faithful:
+        # the invariant behind `backing_irrelevant` is broken although this pair's outputs are still right
+        ctx.mismatch("C20/dask-names-faithful", inp, impl, model)
+    if ok_struct and oa["coordVars"] is not None and ob["coordVars"] is not None and (e1, e2) != (beq_ab, beq_ba):
+        ctx.hit("lazy-shortcut-model-differs-from-impl")
     if not ok_struct:
         ctx.hit("non-canonical-dims-or-dtype")
     return e1
@@ -469,6 +546,9 @@ def base_from_mesh(rng, m, via=None):
 def run_pair(ctx, ux, kind, da, db, touches=()):
     try:
         a, b = build(ux, da), build(ux, db)
+    except OpFailed as e:  # a state-changing public call raised: not judged here
+        ctx.hit(f"op-raised:{e}")
+        return
     except Exception as e:  # constructor refuses the generated input: not judged here
         ctx.hit(f"constructor-raised:{kind}:{type(e).__name__}")
         return
@@ -508,6 +588,146 @@ def small_scope(ctx, ux):
         judge_objs(ctx, "small-scope", a, oa, da, b, ob, db)
     for da, a, oa in fam[:: 5]:
         judge_refl(ctx, a, oa, da, "small-scope")
+
+
+# --------------------------------------------------------------------------------------
+# backing states: numpy / chunk()ed / copied / sub-selected / lazily opened
+# --------------------------------------------------------------------------------------
+
+
+def rand_chunk(rng, nn, nf):
+    def size(n):
+        return rng.choice([rng.randint(1, max(1, n)), rng.randint(1, max(1, n)), -1, "auto", max(1, n // 2)])
+
+    kw = {}
+    for k, n in (("n_node", nn), ("n_face", nf), ("n_edge", nn + nf)):
+        if rng.random() < 0.75:
+            kw[k] = size(n)
+    if not kw:
+        kw["n_node"] = size(nn)
+    return ["chunk", kw]
+
+
+def rand_state(rng, nn, nf, must_chunk=True):
+    """a short history of public calls ending in some backing state"""
+    pre = rng.choice([[], [], [["copy"]], [["touch", rng.sample(TOUCHES, 2)]], [["isel_all"]]])
+    post = rng.choice([[], [], [["copy"]], [rand_chunk(rng, nn, nf)], [["isel_all"]]])
+    mid = [rand_chunk(rng, nn, nf)] if (must_chunk or rng.random() < 0.7) else []
+    return pre + mid + post
+
+
+def backing_pairs(rng, A, thorough):
+    """near-equal (exactly one entry of lon / lat / connectivity differs, same shapes and dtypes) and identical pairs,
+    each in three arrangements of backing states: same calls on both sides, different chunk arguments, one side only"""
+    nn, nf = len(A["lon"]), len(A["conn"])
+    w = len(A["conn"][0])
+
+    def cp(d, **kw):
+        e = json.loads(json.dumps(d))
+        e.update(kw)
+        return e
+
+    near = [("identical", cp(A))]
+    for _ in range(2 if thorough else 1):
+        i = rng.randrange(nn)
+        lon = list(A["lon"]); lon[i] = change_val(rng, lon[i], rng.choice(["ulp+", "small", "random", "half"]))
+        near.append(("one-lon", cp(A, lon=lon)))
+        i = rng.randrange(nn)
+        lat = list(A["lat"]); lat[i] = change_val(rng, lat[i], rng.choice(["ulp-", "small", "random", "half"]))
+        near.append(("one-lat", cp(A, lat=lat)))
+        conn = [list(r) for r in A["conn"]]
+        f, j = rng.randrange(nf), rng.randrange(w)
+        old = conn[f][j]
+        conn[f][j] = rng.choice([v for v in range(nn) if v != old]) if (old == INT_FILL or rng.random() < 0.7) else INT_FILL
+        near.append(("one-conn", cp(A, conn=conn)))
+    out = []
+    for kind, B in near:
+        sel = [["isel", sorted(rng.sample(range(nf), rng.randint(1, nf)))]] if (nf > 1 and rng.random() < 0.2) else []
+        S = rand_state(rng, nn, nf)
+        out.append((kind + "/same-calls", cp(A, ops=sel + S), cp(B, ops=sel + S)))
+        out.append((kind + "/different-chunks", cp(A, ops=sel + rand_state(rng, nn, nf)), cp(B, ops=sel + rand_state(rng, nn, nf))))
+        one = rand_state(rng, nn, nf)
+        if rng.random() < 0.5:
+            out.append((kind + "/one-side", cp(A, ops=sel + one), cp(B, ops=sel)))
+        else:
+            out.append((kind + "/one-side", cp(A, ops=sel), cp(B, ops=sel + one)))
+    return out
+
+
+def small_scope_chunked(ctx, ux):
+    """all ordered pairs of a small family, every member chunk()ed (same arguments / its own arguments)"""
+    rng = ctx.rng
+    tri = dict(lon=[bits(0.0), bits(10.0), bits(20.0), bits(5.0)], lat=[bits(0.0), bits(0.0), bits(5.0), bits(-7.0)],
+               conn=[[0, 1, 2, INT_FILL], [0, 2, 3, 1]])
+    lons = [tri["lon"], tri["lon"][:1] + [bits(11.0)] + tri["lon"][2:]]
+    lats = [tri["lat"], tri["lat"][:2] + [bits(5.000000000000001)] + tri["lat"][3:]]
+    conns = [tri["conn"], [[0, 1, 2, INT_FILL], [0, 2, 3, INT_FILL]]]
+    fmts = [dict(via="topology"), dict(via="dataset", spec="UGRID")]
+    if ctx.thorough or ctx.escalate:
+        lons.append([NAN] + tri["lon"][1:])
+        conns.append([[0, 1, 2, 3], [0, 2, 3, 1]])
+        fmts.append(dict(via="ugrid"))
+    for arrangement in (("same-chunks", "own-chunks", "mixed") if (ctx.thorough or ctx.escalate) else ("same-chunks", "mixed")):
+        fam = []
+        same = rand_chunk(rng, 4, 2)
+        for f, lo, la, co in itertools.product(fmts, lons, lats, conns):
+            ops = [same] if arrangement == "same-chunks" else ([rand_chunk(rng, 4, 2)] if arrangement == "own-chunks" or rng.random() < 0.5 else [])
+            d = desc(f["via"], lo, la, co, ops=ops, **{k: v for k, v in f.items() if k != "via"})
+            try:
+                g = build(ux, d)
+            except Exception as e:  # noqa: BLE001
+                ctx.hit("op-or-constructor-raised:small-chunked:" + type(e).__name__)
+                continue
+            fam.append((d, g, observe(g)))
+        for (da, a, oa), (db, b, ob) in itertools.product(fam, fam):
+            if a is b:
+                continue
+            judge_objs(ctx, "small-scope/" + arrangement, a, oa, da, b, ob, db)
+        for da, a, oa in fam[::3]:
+            judge_refl(ctx, a, oa, da, "small-scope/" + arrangement)
+            judge_copy(ctx, ux, a, oa, da, "small-scope/" + arrangement)
+
+
+def file_states(ctx, ux, f, thorough):
+    """a sample file opened eagerly / lazily (dask) / chunk()ed afterwards: all equal; the file's arrays with one entry
+    changed, rebuilt with the file's format and put into the same states: unequal"""
+    rng = ctx.rng
+    plain = dict(via="file", path=f)
+    try:
+        g0 = build(ux, plain)
+    except Exception as e:  # noqa: BLE001
+        ctx.hit(f"file-unreadable:{f}:{type(e).__name__}")
+        return
+    o0 = observe(g0)
+    nn, nf = len(o0["lon"]), o0["shape"][0]
+    states = [dict(plain, open_chunks=True), dict(plain, ops=[rand_chunk(rng, nn, nf)]),
+              dict(plain, open_chunks=True, ops=[rand_chunk(rng, nn, nf)]), dict(plain, ops=[["copy"], rand_chunk(rng, nn, nf)])]
+    built = [(plain, g0, o0)]
+    for d in states:
+        try:
+            g = build(ux, d)
+        except Exception as e:  # noqa: BLE001
+            ctx.hit(f"op-raised:file:{e if isinstance(e, OpFailed) else type(e).__name__}")
+            continue
+        built.append((d, g, observe(g)))
+    for (da, a, oa), (db, b, ob) in itertools.combinations(built, 2):
+        judge_objs(ctx, "file/backing-states", a, oa, da, b, ob, db)
+    # near-equal pairs in the file's own format
+    w = o0["shape"][1]
+    rows = [o0["conn"][i * w:(i + 1) * w] for i in range(nf)]
+    if o0["coordVars"] is None or not isinstance(o0["spec"], str):
+        return
+    A = desc("dataset", o0["lon"], o0["lat"], rows, spec=o0["spec"], coords=bool(o0["coordVars"]))
+    for kind, da, db in backing_pairs(rng, A, thorough)[: (12 if thorough else 6)]:
+        run_pair(ctx, ux, "file-arrays/" + kind, da, db)
+    # the opened file against its own arrays with one longitude changed, both chunk()ed the same way
+    if o0["coordVars"] == 0:
+        ch = rand_chunk(rng, nn, nf)
+        i = rng.randrange(nn)
+        lon = list(o0["lon"]); lon[i] = change_val(rng, lon[i], "ulp+")
+        B = dict(A, lon=lon, ops=[ch])
+        run_pair(ctx, ux, "file-vs-arrays/one-lon/same-calls", dict(plain, ops=[ch]), B)
+        run_pair(ctx, ux, "file-vs-arrays/identical/same-calls", dict(plain, ops=[ch]), dict(A, ops=[ch]))
 
 
 def ieee_tie(ctx):
@@ -560,16 +780,30 @@ def run_input(ctx, ux, inp):
         judge_nongrid(ctx, a, inp["a"], only=inp.get("other"))
 
 
+def _dask_sync():
+    """dask's single-threaded scheduler: same results, no thread-pool overhead per tiny compute"""
+    try:
+        import dask
+
+        dask.config.set(scheduler="synchronous")
+    except Exception:  # noqa: BLE001
+        pass
+
+
 def run(ctx):
     import uxarray as ux
 
+    _dask_sync()
     rng = ctx.rng
     ctx.rule = ("pairs of grids built through the public constructors (from_topology, from_dataset with a given format, the UGRID "
                 "reader, sample files of 4 formats) from harness/meshes.zoo meshes: identical, exactly one longitude / latitude / "
                 "connectivity entry changed (ulp, NaN, fill value …), n_node / n_face / width changed, other format, NaN and ±0 "
                 "placements, float32 storage, coordinates stored as data variables / xarray coordinates, after derived attributes "
                 "were computed; all ordered pairs of a small family (every combination of differing fields); g==g, copies, "
-                "non-Grid operands.  distinct = distinct (arrays, formats, kind); non-trivial = the pair differs in at most one field")
+                "non-Grid operands; every kind of pair again with the grids put into other BACKING STATES by public calls "
+                "(Grid.chunk with random n_node/n_edge/n_face: same calls on both sides, different arguments, one side only; "
+                "copy(); isel; derived tables materialised; files opened lazily with chunks={}), the oracle being the value-level "
+                "Spec, and Lean evaluating `namesFaithful` on the observed dask names.  distinct = distinct (arrays, formats, kind); non-trivial = the pair differs in at most one field")
     ctx.assumptions = [
         "DataArray.equals = same dims, NaN-aware element equality, same coordinates: tied to the model by the differential run and "
         "by the element-level comparison with xarray on special values (not proved about xarray)",
@@ -577,6 +811,9 @@ def run(ctx):
         "grids use the canonical dimension names; node coordinates are either plain data variables or both xarray coordinates "
         "(other structures are judged by the Spec only and counted)",
         "Python falls back to Grid.__eq__ for `x == g` when x is a builtin (reflected comparison)",
+        "the backing state (numpy / dask names and chunks) is NOT an input of the Spec or of the value-level model; theorem "
+        "backing_irrelevant: with faithful dask names xarray's lazy shortcut cannot change the result — faithfulness of the observed "
+        "names is evaluated by Lean for every pair (dask's tokenisation itself is not proved)",
     ]
     # 0. corpus (minimised past failures / regression witnesses of the Lean counterexamples) first
     for c in corpus_cases():
@@ -607,6 +844,19 @@ def run(ctx):
                 judge_refl(ctx, r[0], r[1], da, m.kind + "+nan")
                 if mi % 4 == 0:
                     judge_copy(ctx, ux, r[0], r[1], da, m.kind + "+nan")
+    # 3b. the same questions in every backing state a public call can put the grids in
+    small_scope_chunked(ctx, ux)
+    for mi, m in enumerate(ms[:: ctx.n(2, 1)]):
+        A = base_from_mesh(rng, m)
+        for kind, da, db in backing_pairs(rng, A, thorough):
+            r = run_pair(ctx, ux, kind, da, db)
+            if r and mi % 4 == 0 and kind.startswith("identical"):
+                judge_refl(ctx, r[0], r[1], da, m.kind + "+state")
+                judge_copy(ctx, ux, r[0], r[1], da, m.kind + "+state")
+    for f in ["scrip/outCSne8/outCSne8.nc", "ugrid/quad-hexagon/grid.nc"] + (
+            ["exodus/outCSne8/outCSne8.g", "mpas/QU/mesh.QU.1920km.151026.nc", "ugrid/outCSne30/outCSne30.ug",
+             "geos-cs/c12/test-c12.native.nc4"] if thorough else []):
+        file_states(ctx, ux, f, thorough)
     # 4. sample files of different formats
     files = FILES + (FILES_THOROUGH if thorough else [])
     opened = []
@@ -642,4 +892,5 @@ def run(ctx):
 def replay(ctx, rp):
     import uxarray as ux
 
+    _dask_sync()
     run_input(ctx, ux, rp["input"])
